@@ -559,6 +559,15 @@ macro_rules! for_all_cfgs {
         $m!(bnum::BUintD16<12>, bnum::BIntD16<12> $(, $x)*);
         $m!(bnum::BUintD8<24>, bnum::BIntD8<24> $(, $x)*);
         $m!(bnum::BUintD8<17>, bnum::BIntD8<17> $(, $x)*);
+        // digit counts with a leftover after 2-, 4- and 8-digit chunks and at least one full chunk
+        $m!(bnum::BUint<6>, bnum::BInt<6> $(, $x)*);
+        $m!(bnum::BUintD32<5>, bnum::BIntD32<5> $(, $x)*);
+        $m!(bnum::BUintD16<7>, bnum::BIntD16<7> $(, $x)*);
+        $m!(bnum::BUintD16<5>, bnum::BIntD16<5> $(, $x)*);
+        $m!(bnum::BUintD8<15>, bnum::BIntD8<15> $(, $x)*);
+        $m!(bnum::BUintD8<13>, bnum::BIntD8<13> $(, $x)*);
+        $m!(bnum::BUintD8<11>, bnum::BIntD8<11> $(, $x)*);
+        $m!(bnum::BUintD8<7>, bnum::BIntD8<7> $(, $x)*);
         $m!(bnum::BUint<2>, bnum::BInt<2> $(, $x)*);
         $m!(bnum::BUintD32<4>, bnum::BIntD32<4> $(, $x)*);
         $m!(bnum::BUintD16<8>, bnum::BIntD16<8> $(, $x)*);
